@@ -168,7 +168,7 @@ field("_inject_blocks", TList(InjectCodeBlock))
 field("_extended_md", TDict(Str, Spec))
 field("_found_extended_md", TDict(Str, TList(Spec)))
 field("_ecc", Ref)
-field("_method_names", TAbs("Any"), cls=P + "cpp_ast.cpp_ast_finder")
+field("_method_names", TDict(Str, Func), cls=P + "cpp_ast.cpp_ast_finder")
 TRANSFORMER = pseudo_base("verif.Transformer", [P + "cpp_functions.find_known_functions", P + "cpp_ast.cpp_ast_finder"])
 
 # ---------------------------------------------------------------- CPPCodeValue (common/cpp_ast.py): an ast node carrying C++ to inline
